@@ -48,6 +48,14 @@ PushBackV(o, v) == /\ Live(o) /\ (Full(o) => Overwrite) /\ v \notin Used
 PushFrontV(o, v) == /\ Live(o) /\ (Full(o) => Overwrite) /\ v \notin Used
                     /\ buf' = [buf EXCEPT ![o] = IF Full(o) THEN <<v>> \o SubSeq(@, 1, Len(@) - 1) ELSE <<v>> \o @]
                     /\ ret' = 0 /\ UNCHANGED <<cap, st, limbo>>
+\* the argument is the element at the opposite end of a full overwriting buffer (rb.push_back(rb.front())): that element
+\* is the one discarded, and a copy of it arrives at the other end (the value stays unique in the buffer)
+PushBackOfFront(o) == /\ Live(o) /\ Full(o) /\ Overwrite /\ buf[o] # <<>>
+                      /\ buf' = [buf EXCEPT ![o] = Append(Tail(@), @[1])]
+                      /\ ret' = 0 /\ UNCHANGED <<cap, st, limbo>>
+PushFrontOfBack(o) == /\ Live(o) /\ Full(o) /\ Overwrite /\ buf[o] # <<>>
+                      /\ buf' = [buf EXCEPT ![o] = <<@[Len(@)]>> \o SubSeq(@, 1, Len(@) - 1)]
+                      /\ ret' = 0 /\ UNCHANGED <<cap, st, limbo>>
 PushBack(o) == PushBackV(o, Fresh)
 PushFront(o) == PushFrontV(o, Fresh)
 PopBack(o) == /\ Live(o) /\ buf[o] # <<>>
@@ -97,7 +105,7 @@ Destroy(o) == /\ TwoObjects /\ o = "B" /\ st[o] # "none"
 PNext == \E o \in Objs : \/ PushBack(o) \/ PushFront(o) \/ PopBack(o) \/ PopFront(o)
                          \/ \E n \in 1..MaxCap : Resize(o, n)
                          \/ CopyConstruct(o) \/ CopyAssign(o) \/ MoveConstruct(o) \/ MoveAssign(o) \/ Destroy(o)
-                         \/ SelfCopyAssign(o) \/ SelfMoveAssign(o)
+                         \/ SelfCopyAssign(o) \/ SelfMoveAssign(o) \/ PushBackOfFront(o) \/ PushFrontOfBack(o)
 PSpec == PInit /\ [][PNext]_pvars
 
 \* C04/C09 on P: no value twice in one object; nothing lost or invented by an operation
